@@ -162,8 +162,8 @@ class C09(CheckBase):
         self.kinds = sorted(k for k in ops_mod.OPS if not k.startswith('canary.'))
         self.kind_w = [self.weights[k] for k in self.kinds]
         self.thorough_runs = self.N_RANDOM_THOROUGH + 2 * self.n_pairs() + 8 * len(self.kinds) + \
-            4 * self.N_PREEMPT_POINTS * len(self.kinds) + self.N_PREEMPT_POINTS * len(self.kinds)
-        self.quick_runs = 800 + 4 * len(self.kinds)
+            4 * self.N_PREEMPT_POINTS * len(self.kinds) + self.N_PREEMPT_POINTS * len(self.kinds) + 4 * len(self.kinds)
+        self.quick_runs = 800 + 5 * len(self.kinds)
         self.wrapped_locks = wrap_module_locks([m for n, m in sorted(sys.modules.items())
                                                 if m is not None and (n == 'geodepy' or n.startswith('geodepy.'))])
         self.sut_codes = sut_code_objects([m for n, m in sorted(sys.modules.items())
@@ -412,6 +412,42 @@ class C09(CheckBase):
                 'sched': {'mode': 'rr'}, 'switches': [], 'opcode_salt': None, 'scribble': False, 'focus': [k],
                 'pair_sweep': True, 'granularity': 'line'}
 
+    def _equal_keys_trace(self, rng, kind_index, pos=None):
+        """Arguments that are EQUAL but not identical: a whole number as float / numpy.float32 / int, and zero
+        with either sign.  A memo keyed by the argument tuple (lru_cache, dict) takes them for the same call;
+        the computation does not (single precision, atan2 of a signed zero).  Every call is compared with its
+        own pristine evaluation, so the order of the calls is what is being tested."""
+        k = self.kinds[kind_index % len(self.kinds)]
+        a = ops_mod.OPS[k][1](rng, self.ctx)
+        idx = [i for i, v in enumerate(a) if isinstance(v, float)]
+        ops = []
+
+        def add(args):
+            ops.append({'id': len(ops), 'kind': k, 'args': list(args), 'thread': 0})
+        if not idx:
+            add(a)
+            add(ops_mod.OPS[k][1](rng, self.ctx))
+        else:
+            p = idx[(pos if pos is not None else rng.randrange(len(idx))) % len(idx)]
+            import math
+            whole = float(round(a[p])) if math.isfinite(a[p]) and abs(a[p]) < 2 ** 23 else 1.0
+
+            def variant(v):
+                b = list(a)
+                b[p] = v
+                return b
+            order = [whole, {'$num': ['f32', whole]}, {'$num': ['int', whole]}, {'$num': ['f64', whole]}, whole]
+            if rng.random() < 0.5:
+                order = [{'$num': ['f32', whole]}, whole, {'$num': ['int', whole]}]
+            for v in order:
+                add(variant(v))
+            zeros = [0.0, -0.0, 0.0] if rng.random() < 0.5 else [-0.0, 0.0, -0.0]
+            for v in zeros:
+                add(variant(v))
+        return {'property': 'C09', 'threads': 1, 'ops': ops, 'shared': [], 'faults': [],
+                'sched': {'mode': 'rr'}, 'switches': [], 'opcode_salt': None, 'scribble': False, 'focus': [k],
+                'pair_sweep': True, 'granularity': 'line'}
+
     def generate(self, rng, i, tier):
         t = self._generate(rng, i, tier)
         # half of the runs: every caller uses the same grid object per NTv2 file (read once, shared by all
@@ -431,6 +467,8 @@ class C09(CheckBase):
             # a failed call (wrong-typed argument) followed by a long run of valid calls of the same kind:
             # what an error path leaves behind may show only in a few per cent of the later results
             return self._cancel_trace(rng, i - 3 * K, rng.random(), 'badarg', follow=40)
+        if i < 5 * K:
+            return self._equal_keys_trace(rng, i - 4 * K)
         if tier == 'thorough' and i >= self.N_RANDOM_THOROUGH:
             j = i - self.N_RANDOM_THOROUGH
             if j < 2 * self.n_pairs():
@@ -443,6 +481,9 @@ class C09(CheckBase):
                 point, rest = j % self.N_PREEMPT_POINTS, j // self.N_PREEMPT_POINTS
                 return self._preempt_trace(rng, rest // 4, (point + 0.5) / self.N_PREEMPT_POINTS, rest % 4)
             j -= 4 * self.N_PREEMPT_POINTS * K
+            if j >= self.N_PREEMPT_POINTS * K:
+                j -= self.N_PREEMPT_POINTS * K
+                return self._equal_keys_trace(rng, j // 4, j % 4)
             point, rest = j % self.N_PREEMPT_POINTS, j // self.N_PREEMPT_POINTS
             return self._cancel_trace(rng, rest, (point + 0.5) / self.N_PREEMPT_POINTS,
                                       'badarg' if point < 8 else ('cancel' if point % 4 else 'oom'))
